@@ -9,6 +9,7 @@ import (
 	"math/rand"
 	"os"
 	"reflect"
+	"sort"
 	"strings"
 
 	"github.com/tonkeeper/tongo/boc"
@@ -305,6 +306,12 @@ func DriveBags(w *ev.Writer, o Opts) error {
 		}
 		n := fromCell(roots[0], map[*boc.Cell]*node{})
 		d.decode(v.Type, t, "specgen:"+v.Class, n, ev.M{"boc": v.Boc, "seedid": v.Seed}, ln%2 == 1)
+		if v.Type == "abi.InMsgBody" || v.Type == "abi.ExtOutMsgBody" {
+			// a message body with its op code in front: also through the decoders that dispatch on the op code
+			for _, site := range []string{"abi.InternalMessageDecoder", "abi.ExtInMessageDecoder", "abi.ExtOutMessageDecoder"} {
+				execAbi(r, site, fmt.Sprintf("specgen:%s@%d", v.Class, v.Seed), n)
+			}
+		}
 	}
 	if o.AstOut != "" {
 		b, err := json.Marshal(d.asts)
@@ -352,6 +359,15 @@ func Seeds(w *ev.Writer, o Opts) error {
 			}
 		}
 	}
+	for _, ab := range abiBodiesWithOptionalRefs(rng) {
+		m := ab.root.table()
+		m["type"] = ab.typ
+		m["seed"] = n
+		m["optrefs"] = true
+		w.Emit(m)
+		n++
+	}
+	want += n
 	for _, rc := range smallDecodeOnly(o.Seed) {
 		if v, err := rc.build(); err == nil && len(v.all()) <= 16 {
 			m := v.table()
@@ -391,6 +407,97 @@ func Seeds(w *ev.Writer, o Opts) error {
 	}
 	w.Emit(ev.M{"k": "End", "events": w.N})
 	return nil
+}
+
+// optRefFields lists the fields of a struct type that are optional references: tlb.EitherRef[..], tlb.Maybe[tlb.Ref[..]]
+// and `maybe^` tagged fields.
+func optRefFields(t reflect.Type) []int {
+	var out []int
+	if t.Kind() != reflect.Struct {
+		return nil
+	}
+	for i := 0; i < t.NumField(); i++ {
+		f := t.Field(i)
+		n := f.Type.Name()
+		switch {
+		case strings.HasPrefix(f.Tag.Get("tlb"), "maybe^"):
+			out = append(out, i)
+		case f.Type.PkgPath() == "github.com/tonkeeper/tongo/tlb" && strings.HasPrefix(n, "EitherRef["):
+			out = append(out, i)
+		case f.Type.PkgPath() == "github.com/tonkeeper/tongo/tlb" && strings.HasPrefix(n, "Maybe["):
+			if vf, ok := f.Type.FieldByName("Value"); ok && strings.HasPrefix(vf.Type.Name(), "Ref[") {
+				out = append(out, i)
+			}
+		}
+	}
+	return out
+}
+
+// abiBodiesWithOptionalRefs: a valid encoding of every abi message body that holds optional references, with every one
+// of them PRESENT (custom payload there, forward payload by reference, ...), as the bare body and - where the body has
+// an op code - with the op code in front, i.e. as the abi.InMsgBody a message carries.
+func abiBodiesWithOptionalRefs(rng *rand.Rand) (out []struct {
+	typ  string
+	root *node
+}) {
+	var names []string
+	for name := range tlbx.Registry {
+		if strings.HasPrefix(name, "abi.") && strings.HasSuffix(name, "MsgBody") && len(optRefFields(tlbx.Registry[name])) > 0 {
+			names = append(names, name)
+		}
+	}
+	sort.Strings(names)
+	for _, name := range names {
+		t := tlbx.Registry[name]
+		var root *node
+		for tries := 0; tries < 8 && root == nil; tries++ {
+			func() {
+				defer func() { recover() }()
+				g := &tlbx.Gen{Rng: rng}
+				v := g.New(t)
+				for _, i := range optRefFields(t) {
+					f := v.Field(i)
+					switch {
+					case f.Kind() == reflect.Pointer:
+						if f.IsNil() {
+							p := reflect.New(f.Type().Elem())
+							g.Fill(p.Elem(), "", 2)
+							f.Set(p)
+						}
+					case f.FieldByName("IsRight").IsValid():
+						f.FieldByName("IsRight").SetBool(true)
+					case f.FieldByName("Exists").IsValid() && !f.FieldByName("Exists").Bool():
+						f.FieldByName("Exists").SetBool(true)
+						g.Fill(f.FieldByName("Value"), "", 2)
+					}
+				}
+				c := boc.NewCell()
+				if err := tlb.Marshal(c, v.Interface()); err != nil {
+					return
+				}
+				if n := fromCell(c, map[*boc.Cell]*node{}); len(n.all()) <= 12 && len(n.refs) >= len(optRefFields(t)) {
+					root = n
+				}
+			}()
+		}
+		if root == nil {
+			continue
+		}
+		out = append(out, struct {
+			typ  string
+			root *node
+		}{name, root})
+		op, ok := tlbx.MsgOpCodes[""][strings.TrimSuffix(strings.TrimPrefix(name, "abi."), "MsgBody")]
+		if ok && len(root.bits)+32 <= 1023 {
+			w, _ := root.clone()
+			w.bits = fmt.Sprintf("%032b", op) + w.bits
+			out = append(out, struct {
+				typ  string
+				root *node
+			}{"abi.InMsgBody", w})
+		}
+	}
+	return out
 }
 
 // skel cuts a skeleton out of a real cell tree: the cells on the paths named by spec are kept, every other subtree is
